@@ -183,7 +183,9 @@ ProxyErrOk(entry, input, mro) ==
 VProxy(ev) ==
     LET rawish == ev.entry \in {"raw", "registry-raw"} IN
     IF ev.out = "raise" /\ ~ProxyErrOk(ev.entry, ev.input, ev.mro) THEN "proxy-undocumented-error"
+    ELSE IF ev.mk = "valid-block-not-decrypted" THEN "valid-block-not-decrypted"
     ELSE IF ev.out \notin {"ok", "raise"} THEN "no-verdict"
+    ELSE IF ev.mk \in {"valid", "valid-bytearray"} /\ ev.out # "ok" THEN "valid-key-refused"
     ELSE IF rawish /\ ev.out = "ok" /\ ~(Len(ev.input) = 64 /\ ev.rraw = ev.input /\ ev.rder = BEC2_HEADER \o ev.input) THEN "raw-key-changed-or-malformed-accepted"
     ELSE IF ev.entry \in {"der", "registry-der"} /\ ev.out = "ok" /\ ev.mk \in {"trunc", "ext"} THEN "truncation-or-extension-accepted"
     ELSE IF ev.entry = "decrypt" /\ ev.out = "ok" /\ ev.mk = "trunc" THEN "truncation-or-extension-accepted"
